@@ -68,8 +68,10 @@ class InterpolatingOpacity(Opacity):
         self._interp_mode = interp_mode.strip()
 
     def interp_temp_only(self, T, t_idx_min, t_idx_max, P, filt):
-        Tmax = self.temperatureGrid[t_idx_max]
-        Tmin = self.temperatureGrid[t_idx_min]
+        # plain floats: with an integer (or 4-byte) temperature grid the
+        # kernels would otherwise evaluate Tmax*(Tmin - T) in the grid's type
+        Tmax = float(self.temperatureGrid[t_idx_max])
+        Tmin = float(self.temperatureGrid[t_idx_min])
         fx0 = self.xsecGrid[P, t_idx_min, filt]
         fx1 = self.xsecGrid[P, t_idx_max, filt]
 
@@ -152,8 +154,10 @@ class InterpolatingOpacity(Opacity):
         q_21 = self.xsecGrid[p_idx_max, t_idx_min][wngrid_filter].ravel()
         q_22 = self.xsecGrid[p_idx_max, t_idx_max][wngrid_filter].ravel()
 
-        Tmax = self.temperatureGrid[t_idx_max]
-        Tmin = self.temperatureGrid[t_idx_min]
+        # plain floats: with an integer (or 4-byte) temperature grid the
+        # kernels would otherwise evaluate Tmax*(Tmin - T) in the grid's type
+        Tmax = float(self.temperatureGrid[t_idx_max])
+        Tmin = float(self.temperatureGrid[t_idx_min])
         Pmax = self.logPressure[p_idx_max]
         Pmin = self.logPressure[p_idx_min]
 
